@@ -6,6 +6,12 @@ ROOT = os.path.dirname(os.path.dirname(os.path.abspath(__file__)))
 
 # id -> (category, technique, level text, level note, design ref)
 CHECKS = {
+ "C15": ("exploration",
+   "bounded-exhaustive enumeration of ordered initiator pairs (thorough: triples) x separators x control-service answers x Stop held/handled, plus proptest mixes; oracle over the reference-decoded output stream",
+   "Every single close initiator and every ordered pair with repetition (application close variants, protocol handler disconnect_with, six dedicated-code violations, malformed bytes, unsolicited ack, handler errors, peer DISCONNECT with/without session expiry) x three separators x three Stop answers x Stop held open or not, "
+   "v5 server and v5 client. At most one DISCONNECT, nothing after it, none after the peer's DISCONNECT was handled, a first error cause that is not overtaken never yields 0x00 and carries its dedicated code, a lone error cause is reported at all.",
+   "Trusted: reference decoder. Keep-alive (0x8D) is checked by C20. Which of two unseparated initiators writes the single DISCONNECT is not judged.",
+   "DESIGN.md section 3 C15"),
  "C07": ("fault_enumeration",
    "exhaustive enumeration of the grid base scenario x step index x termination cause x Stop held/handled x role (plus every byte offset inside the packet being delivered for peer close / read error), teardown oracle over the application log and owned futures",
    "Nine base scenarios (idle; publishes in flight with gated handlers; inbound payload half received with a reader waiting; outbound sends awaiting acknowledgement; senders parked on a full window; ready() parked on write back-pressure; outbound stream half written; "
